@@ -103,6 +103,9 @@ func c13Seeds() []c13Seed {
 		out = append(out, c13Seed{Handler: "webdav", BodyKind: "xml", NeedsXML: true, Req: harness.Req{Method: "PROPPATCH", Path: p, Header: xmlH(), Body: c13Proppatch}})
 		for _, m := range []string{"COPY", "MOVE"} {
 			out = append(out, c13Seed{Handler: "webdav", Depth: true, Overwrite: true, Dest: true, Req: harness.Req{Method: m, Path: p, Header: map[string]string{"Destination": "/d/new", "Overwrite": "T", "Depth": "infinity"}}})
+			// refused: the destination exists and must not be overwritten; the parent of the destination is missing
+			out = append(out, c13Seed{Handler: "webdav", Req: harness.Req{Method: m, Path: p, Header: map[string]string{"Destination": "/d/bare", "Overwrite": "F"}}})
+			out = append(out, c13Seed{Handler: "webdav", Req: harness.Req{Method: m, Path: p, Header: map[string]string{"Destination": "/nowhere/x"}}})
 		}
 	}
 	// caldav / carddav
@@ -536,6 +539,65 @@ func c13Mutants(seeds []c13Seed, pairs bool) []c13Mutant {
 			}
 		}
 	}
+	// M10 / M11: lexical operators on XML bodies
+	for _, s := range seeds {
+		if s.BodyKind != "xml" || s.Req.Body == "" {
+			continue
+		}
+		body := s.Req.Body
+		// tag boundaries
+		type tagPos struct {
+			lo, hi int // body[lo:hi] = "<...>"
+		}
+		var tags []tagPos
+		for i := 0; i < len(body); i++ {
+			if body[i] == '<' {
+				j := strings.IndexByte(body[i:], '>')
+				if j < 0 {
+					break
+				}
+				tags = append(tags, tagPos{i, i + j + 1})
+				i += j
+			}
+		}
+		for _, t := range tags {
+			tag := body[t.lo:t.hi]
+			switch {
+			case strings.HasPrefix(tag, "<?"), strings.HasPrefix(tag, "<!"):
+			case strings.HasPrefix(tag, "</"):
+				// M11a: this end tag alone renamed (no longer matches its start tag)
+				q := cloneReq(s.Req)
+				q.Body = body[:t.hi-1] + "s" + body[t.hi-1:]
+				if _, err := indep.Parse([]byte(q.Body)); err != nil {
+					add(s, "M11-end-tag-mismatch", "unparseable-xml", q)
+				}
+			default:
+				// M10: a comment / a processing instruction as first content of this element (well-formed:
+				// only the no-panic oracle applies, and the answer class must stay that of the seed)
+				if !strings.HasSuffix(tag, "/>") {
+					for _, ins := range []string{"<!-- c -->", "<?pi x?>"} {
+						q := cloneReq(s.Req)
+						q.Body = body[:t.hi] + ins + body[t.hi:]
+						add(s, "M10-comment-or-pi-inside", "", q)
+					}
+				}
+				// M11b: attribute values without quotes
+				if strings.Contains(tag, `="`) {
+					q := cloneReq(s.Req)
+					q.Body = body[:t.lo] + strings.Replace(strings.Replace(tag, `="`, `=`, 1), `"`, ``, 1) + body[t.hi:]
+					if _, err := indep.Parse([]byte(q.Body)); err != nil {
+						add(s, "M11-unquoted-attribute", "unparseable-xml", q)
+					}
+				}
+				// M11c: an entity XML does not define, after this tag
+				q := cloneReq(s.Req)
+				q.Body = body[:t.hi] + "&nbsp;" + body[t.hi:]
+				if _, err := indep.Parse([]byte(q.Body)); err != nil {
+					add(s, "M11-undefined-entity", "unparseable-xml", q)
+				}
+			}
+		}
+	}
 	// M9: every request that carries a body once more with the body length not announced (chunked)
 	n := len(out)
 	for i := 0; i < n; i++ {
@@ -582,6 +644,12 @@ func c13Judge(m c13Mutant) (clause, detail string) {
 		}
 	}
 	if m.Tag == "" {
+		// The doubles never fail by themselves: a 500 that the unmutated seed does not get is caused by what
+		// the request says, i.e. it is a client error reported as a server error (501 Not Implemented and
+		// the like are answers in their own right)
+		if resp.Status == 500 && m.Op != "seed" {
+			return "request-content-answered-500", fmt.Sprintf("status 500 body %q", trunc(string(resp.Body), 160))
+		}
 		return "", ""
 	}
 	if resp.Status < 400 || resp.Status > 499 {
@@ -599,7 +667,7 @@ func init() {
 	register("C13", func(r *engine.Run) {
 		seeds := c13Seeds()
 		muts := c13Mutants(seeds, thorough(r))
-		r.Rule = fmt.Sprintf("%d valid seed requests (handler x method x hierarchy level x body variant) x deterministic single-mutation operators applied at every position: M1 truncate the body at every byte offset, M2 every 1-2 byte body over 6 bytes, M3 wrong root name/namespace, M4 delete/duplicate/rename/namespace-swap every element + insert mutually exclusive elements (is-not-defined beside siblings, allprop beside prop, allcomp beside comp), M5 every attribute set to 5 invalid values / deleted, nresults corrupted, M6 Depth/Overwrite/Destination/Content-Type value sets, M7 iCalendar/vCard truncation at every offset and line deletion/duplication, M8 unknown methods, M9 every body-carrying request above once more with the body length not announced (chunked), which must be answered exactly like its twin; a mutant is tagged malformed only when an independent judge says so (strict XML parser, the dependency's own iCalendar/vCard decoder, the header grammar); non-trivial = mutant carries a malformation tag (4xx + no-mutation oracle applies); distinct by full request", len(seeds))
+		r.Rule = fmt.Sprintf("%d valid seed requests (handler x method x hierarchy level x body variant) x deterministic single-mutation operators applied at every position: M1 truncate the body at every byte offset, M2 every 1-2 byte body over 6 bytes, M3 wrong root name/namespace, M4 delete/duplicate/rename/namespace-swap every element + insert mutually exclusive elements (is-not-defined beside siblings, allprop beside prop, allcomp beside comp), M5 every attribute set to 5 invalid values / deleted, nresults corrupted, M6 Depth/Overwrite/Destination/Content-Type value sets, M7 iCalendar/vCard truncation at every offset and line deletion/duplication, M8 unknown methods, M10 a comment / processing instruction inserted as first content of every element, M11 every end tag renamed alone, attribute values unquoted, an undefined entity after every tag, M9 every body-carrying request above once more with the body length not announced (chunked), which must be answered exactly like its twin; a mutant is tagged malformed only when an independent judge says so (strict XML parser, the dependency's own iCalendar/vCard decoder, the header grammar); non-trivial = mutant carries a malformation tag (4xx + no-mutation oracle applies); distinct by full request", len(seeds))
 		r.Explanation = "every mutant is served by the real handler over a recording backend: no panic, a complete response, and for tagged mutants a 4xx status and no create/update/delete call"
 		r.Extra["seeds"] = len(seeds)
 		r.Extra["mutants"] = len(muts)
